@@ -7,6 +7,7 @@ INVARIANT C13_SubLimit
 INVARIANT C13_OnlyRegisteredGens
 INVARIANT C01_OnlyAccepted
 INVARIANT C13_RegisteredIsLive
+INVARIANT C03_OnlyAuthenticAccepted
 PROPERTY C13_StoredBeforeEose
 PROPERTY C13_NoStoredAfterCancel
 PROPERTY C13_RefusedKeepsOthers
